@@ -2,6 +2,8 @@
 import ast, re, sys, difflib
 import re._parser as sre, re._constants as sc
 from sa.util import *
+from sa import rx
+from sa import tokl
 # ---------------------------------------------------------------- extractor A (lang.py / rrel.py)
 class PyGrammar:
     def __init__(s, trees):
@@ -145,6 +147,7 @@ def norm(t):
     items = []
     for c in t[1]:
         c = norm(c)
+        if k == "alt" and c[0] == "opt": c = c[1]      # N1: Arpeggio's OrderedChoice skips an alternative that matched nothing (checked against its source in build())
         if c[0] == k: items.extend(c[1])
         else: items.append(c)
     if k == "seq":
@@ -172,7 +175,7 @@ def show(t):
 # ---------------------------------------------------------------- differ
 class Differ:
     def __init__(s, A, B, equiv):
-        s.A, s.B, s.equiv, s.diffs, s.paired = A, B, equiv, [], set()
+        s.A, s.B, s.equiv, s.diffs, s.paired, s.absorbed = A, B, equiv, [], set(), []
     def res(s, t, G):
         seen = set()
         while t[0] == "ref" and t[1] in G and t[1] not in seen: seen.add(t[1]); t = G[t[1]]
@@ -185,6 +188,46 @@ class Differ:
         if t[0] in ("opt", "star", "plus"): return t[0] + ":" + s.head(t[1], G, depth + 1)
         if t[0] in ("seq", "alt"): return t[0] + ":" + (s.head(t[1][0], G, depth + 1) if depth < 2 else "")
         return t[0]
+    # ---- semantic fallbacks (each is a sound equivalence with a machine-checked side condition)
+    def regex_only(s, t, G):
+        """the regex source equivalent to t if t is built from regex terminals and ordered choice only, else None"""
+        t = s.res(t, G)
+        if t[0] == "re": return canon_re(t[1])
+        if t[0] == "alt":
+            parts = [s.regex_only(c, G) for c in t[1]]
+            if all(p is not None for p in parts): return "|".join("(?:%s)" % p for p in parts)
+        return None
+    def simp(s, t, G):
+        """N3: in an ordered choice drop a keyword alternative (w1|..|wn)\\b that is followed by the alternative \\w+ :
+        whenever the keyword alternative matches, its match ends at a word boundary, so \\w+ matches exactly the same span"""
+        if t[0] != "alt": return t
+        kids = list(t[1]); res = [s.res(c, G) for c in kids]; keep = []
+        for i, c in enumerate(res):
+            if c[0] == "re" and rx.keyword_alt_with_boundary(c[1]) and any(d[0] == "re" and canon_re(d[1]) == r"\w+" for d in res[i + 1:]):
+                s.absorbed.append(("N3 keyword alternative before \\w+", show(c))); continue
+            keep.append(kids[i])
+        return keep[0] if len(keep) == 1 else ("alt", keep)
+    def same_regular_language(s, a, b):
+        ra_, rb_ = s.regex_only(a, s.A), s.regex_only(b, s.B)
+        if ra_ is None or rb_ is None: return False
+        if ra_ == rb_: return True
+        try:
+            if not (rx.prefix_free(ra_) and rx.prefix_free(rb_)): return False     # then the match span is determined by the language alone
+            eq, w = rx.compare(ra_, rb_)
+        except rx.Unsupported: return False
+        if eq: s.absorbed.append(("equal prefix-free regular languages", "/%s/ == /%s/" % (ra_, rb_)))
+        return eq
+    def same_finite_language(s, a, b):
+        try:
+            opa, opb = {}, {}
+            for (x, y) in s.equiv:          # rule pairs of the equivalence table are one opaque token on both sides
+                src = s.regex_only(("ref", x), s.A) if x in s.A else None
+                if src is not None and y in s.B: opa[x] = opb[y] = ("%s~%s" % (x, y), src)
+            ta, tb = tokl.Abstract(a, s.A, opaque=opa), tokl.Abstract(b, s.B, opaque=opb)
+            eq, w, n = tokl.compare(ta, tb)
+        except tokl.Unsupported: return False
+        if eq: s.absorbed.append(("equal finite token languages (%d strings enumerated exhaustively)" % n, "%s == %s" % (show(a), show(b))))
+        return eq
     def cmp(s, a, b, where, ra, rb):
         if a[0] == "ref" and b[0] == "ref":
             if (a[1], b[1]) in s.paired: return
@@ -195,6 +238,12 @@ class Differ:
         if b[0] == "ref" and b[1] in s.B: b = s.res(b, s.B)
         loc = "%s~%s%s" % (ra, rb, where)
         if (ra, rb) in s.equiv and not where: return
+        a, b = s.simp(a, s.A), s.simp(b, s.B)
+        if a[0] == "ref" and a[1] in s.A: a = s.res(a, s.A)
+        if b[0] == "ref" and b[1] in s.B: b = s.res(b, s.B)
+        if (a[0] != b[0] or a[0] == "alt") and s.same_regular_language(a, b): return
+        if a[0] != b[0] or (a[0] in ("seq", "alt") and [s.head(x, s.A) for x in a[1]] != [s.head(x, s.B) for x in b[1]]):
+            if s.same_finite_language(a, b): return
         if a[0] != b[0]:
             s.diffs.append((ra, rb, where, "shape", show(a), show(b)))
             if a[0] in ("star", "plus", "opt") and b[0] in ("star", "plus", "opt"): s.cmp(a[1], b[1], where + "/rep", ra, rb)
@@ -205,7 +254,7 @@ class Differ:
         if k == "lit":
             if a[1] != b[1]: s.diffs.append((ra, rb, where, "literal", show(a), show(b)))
         elif k == "re":
-            if canon_re(a[1]) != canon_re(b[1]): s.diffs.append((ra, rb, where, "regex", show(a), show(b)))
+            if canon_re(a[1]) != canon_re(b[1]) and not s.same_regular_language(a, b): s.diffs.append((ra, rb, where, "regex", show(a), show(b)))
         elif k in ("opt", "not", "and"): s.cmp(a[1], b[1], where + "/" + k, ra, rb)
         elif k in ("star", "plus", "unordered"):
             s.cmp(a[1], b[1], where + "/" + k, ra, rb)
@@ -238,7 +287,17 @@ EQUIV = {
     ("re_match", "ReMatch"): "one regex /…/ vs '/' body '/' — same language; only leading whitespace inside the slashes is skipped differently (model value, not acceptance)",
     ("comment", "Comment"): "same two regexes", ("comment_line", "CommentLine"): "same regex", ("comment_block", "CommentBlock"): "same regex",
 }
+def _check_arpeggio_choice():
+    """N1 relies on OrderedChoice._parse accepting an alternative only if its result is not None"""
+    import importlib.util
+    spec = importlib.util.find_spec("arpeggio")
+    if spec is None or not spec.origin: raise AnalysisError("arpeggio source not found")
+    t = ast.parse(open(spec.origin, encoding="utf-8").read())
+    oc = find(t, "OrderedChoice._parse")
+    if not any(isinstance(n, ast.Compare) and isinstance(n.ops[0], ast.IsNot) and isinstance(n.comparators[0], ast.Constant) and n.comparators[0].value is None for n in ast.walk(oc)):
+        raise AnalysisError("arpeggio OrderedChoice._parse no longer skips empty alternatives; normal-form rule N1 is unsound")
 def build(root):
+    _check_arpeggio_choice()
     lang = load(root, "textx/lang.py"); rrel = load(root, "textx/scoping/rrel.py")
     pg = PyGrammar([lang, rrel]); pg.rule("textx_model"); pg.rule("comment")
     A = {k: v for k, v in pg.rules.items()}
